@@ -188,20 +188,8 @@ Definition cd_w (w : world) (c : nat) : option value := cs_m (cs_get w c).
 Definition tp_ver (w : world) (c : nat) : Z := cs_ver (cs_get w c).     (* __Pyx_get_tp_dict_version *)
 Definition inst_m (o : ostate) : option Z := match os_dict o with Some (e, _) => e | None => None end.
 
-(* fx = repaired variant: the version read by the cache is the type's own tp_version_tag, which
-   PyType_Modified invalidates for the mutated class and every subclass (each gets a fresh tag of
-   its own: class i gets v + i) - not the tag of the one mutated dict *)
-Fixpoint bump_subs (h : hier) (c : nat) (v : Z) (i : nat) (l : list cstate) : list cstate :=
-  match l with
-  | [] => []
-  | s :: r => (if in_mro h c i then mkcs (cs_m s) (v + Z.of_nat i) else s) :: bump_subs h c v (S i) r
-  end.
-
-Definition set_class (fx : bool) (h : hier) (w : world) (c : nat) (e : option value) : world :=
-  let l := upd (w_cls w) c (mkcs e (w_next w)) in
-  if fx then mkw (bump_subs h c (w_next w + 1) 0 l) (w_objs w) (w_cache w)
-                 (w_next w + 1 + Z.of_nat (length (w_cls w)))
-  else mkw l (w_objs w) (w_cache w) (w_next w + 1).
+Definition set_class (w : world) (c : nat) (e : option value) : world :=
+  mkw (upd (w_cls w) c (mkcs e (w_next w))) (w_objs w) (w_cache w) (w_next w + 1).
 
 Definition set_obj (w : world) (oi : nat) (o : ostate) : world :=
   mkw (w_cls w) (upd (w_objs w) oi o) (w_cache w) (w_next w + 1).
@@ -233,8 +221,14 @@ Definition set_cache (w : world) (k : nat) (p : Z * Z) : world :=
 (* tp_dictoffset != 0 || HasFeature(IS_ABSTRACT | HEAPTYPE): false = "cannot be overridden" *)
 Definition prefilter (h : hier) (c : nat) : bool := has_dict h c || is_py (getc h c).
 
+Definition is_ext (d : cls) : bool := negb (is_py d).
+(* fx = repaired variant: the result is cached only for types all of whose bases are immutable
+   (static) types - then the dict of type(obj) is the only type dict that can ever change *)
+Definition static_bases (h : hier) (c : nat) : bool :=
+  forallb (fun b => is_ext (getc h b)) (tl (cmro (getc h c))).
+
 (* GetAttrStr + IsSameCFunction + call; on "not overridden" refresh the cache (cached build) *)
-Definition slow_path (cached : bool) (h : hier) (w : world) (k oi : nat) (o : ostate) : world * result :=
+Definition slow_path (cached fx : bool) (h : hier) (w : world) (k oi : nat) (o : ostate) : world * result :=
   let guard := tp_ver w (os_cls o) in
   match lookup h (cd_w w) (os_cls o) (inst_m o) with
   | TWrap k' =>
@@ -242,7 +236,7 @@ Definition slow_path (cached : bool) (h : hier) (w : world) (k oi : nat) (o : os
         if cached then
           let tv := tp_ver w (os_cls o) in
           let (w1, ov) := read_obj_ver h w oi in
-          (set_cache w1 k (if guard =? tv then (tv, ov) else (VINIT, VINIT)), RBody k)
+          (set_cache w1 k (if (guard =? tv) && (negb fx || static_bases h (os_cls o)) then (tv, ov) else (VINIT, VINIT)), RBody k)
         else (w, RBody k)
       else (w, RBody k')        (* bound builtin of another wrapper: its C body, skip_dispatch = 1 *)
   | TFn n => (w, RFn n)
@@ -251,7 +245,7 @@ Definition slow_path (cached : bool) (h : hier) (w : world) (k oi : nat) (o : os
   end.
 
 (* C entry point of class k's cpdef m *)
-Definition cbody (cached : bool) (h : hier) (w : world) (k : nat) (skip : bool) (oi : nat) (o : ostate)
+Definition cbody (cached fx : bool) (h : hier) (w : world) (k : nat) (skip : bool) (oi : nat) (o : ostate)
   : world * result :=
   if skip then (w, RBody k)
   else if cdecl_dict (getc h k) || prefilter h (os_cls o) then
@@ -260,25 +254,25 @@ Definition cbody (cached : bool) (h : hier) (w : world) (k : nat) (skip : bool) 
       if fst (cache_find (w_cache w) k) =? tp_ver w (os_cls o) then
         let (w1, v) := read_obj_ver h w oi in
         if snd (cache_find (w_cache w) k) =? v then (w1, RBody k)
-        else slow_path cached h w1 k oi o
-      else slow_path cached h w k oi o
-    else slow_path cached h w k oi o
+        else slow_path cached fx h w1 k oi o
+      else slow_path cached fx h w k oi o
+    else slow_path cached fx h w k oi o
   else (w, RBody k).
 
 (* dispatch_cy for a call from C: vtable slot of the object's type, skip_dispatch = 0 *)
-Definition dispatch_cy (cached : bool) (h : hier) (w : world) (oi : nat) (o : ostate) : world * result :=
+Definition dispatch_cy (cached fx : bool) (h : hier) (w : world) (oi : nat) (o : ostate) : world * result :=
   match vslot h (os_cls o) with
-  | Some k => cbody cached h w k false oi o
+  | Some k => cbody cached fx h w k false oi o
   | None => (w, RInvalid)
   end.
 
 Definition step_cy (cached fx : bool) (h : hier) (w : world) (o : op) : world * option result :=
   match o with
   | SetClass c v =>
-      (if validc h c && is_py (getc h c) then set_class fx h w c (Some v) else w, None)
+      (if validc h c && is_py (getc h c) then set_class w c (Some v) else w, None)
   | DelClass c =>
       (if validc h c && is_py (getc h c) then
-         match cd_w w c with Some _ => set_class fx h w c None | None => w end
+         match cd_w w c with Some _ => set_class w c None | None => w end
        else w, None)
   | New c =>
       (if validc h c then
@@ -300,14 +294,14 @@ Definition step_cy (cached fx : bool) (h : hier) (w : world) (o : op) : world * 
   | CallPy oi =>
       match nth_error (w_objs w) oi with
       | Some o => match lookup h (cd_w w) (os_cls o) (inst_m o) with
-                  | TWrap k => let (w1, r) := cbody cached h w k true oi o in (w1, Some r)
+                  | TWrap k => let (w1, r) := cbody cached fx h w k true oi o in (w1, Some r)
                   | t => (w, Some (res_of_target t))
                   end
       | None => (w, Some RInvalid)
       end
   | CallC oi =>
       match nth_error (w_objs w) oi with
-      | Some o => let (w1, r) := dispatch_cy cached h w oi o in (w1, Some r)
+      | Some o => let (w1, r) := dispatch_cy cached fx h w oi o in (w1, Some r)
       | None => (w, Some RInvalid)
       end
   | CallVia c oi =>
@@ -317,7 +311,7 @@ Definition step_cy (cached fx : bool) (h : hier) (w : world) (o : op) : world * 
             match type_lookup h (cd_w w) c with
             | Some (Fn n) => (w, Some (RFn n))
             | Some (Wrap k) => if in_mro h k (os_cls o)
-                               then let (w1, r) := cbody cached h w k true oi o in (w1, Some r)
+                               then let (w1, r) := cbody cached fx h w k true oi o in (w1, Some r)
                                else (w, Some RTypeError)
             | None => (w, Some RAttrError)
             end
@@ -342,7 +336,6 @@ Fixpoint exec_cy (cached fx : bool) (h : hier) (w : world) (ops : list op) : wor
   end.
 
 (* ---------- well-formedness of hierarchies (decidable) ---------- *)
-Definition is_ext (d : cls) : bool := negb (is_py d).
 Definition wf_cls (h : hier) (c : nat) (d : cls) : bool :=
   match cmro d with
   | [] => false
